@@ -13,6 +13,16 @@ argument text and the ordinal of this (callee, args) pair inside the function (s
 an already reviewed call is a NEW site).  The Coq side (Model/SparseOps.v) holds the reviewed list; Props/C16.v
 proves `forallb sanctioned dense_sites = true` by vm_compute over THIS table, regenerated on every run.
 
+Second table (`inplace_sites`): "works on a private copy".  For every function of the anchored files, every local
+NAME that is written IN PLACE (`name[...] = v`, `name[...] op= v`, `out=name[...]`, and `name op= v` when the name is
+bound to something mentioning .coords/.data/.indices/.indptr) together with EVERY expression the name is bound to in
+that function (`<parameter>` for arguments, `<item k of> e` for tuple unpacking); and every array attribute
+(.coords/.data/.indices/.indptr) handed to an internal `_kernel(...)` as a positional argument.  The reviewed table in
+Model/DenseSites.v says why each binding is private (a fresh allocation / copy, a Python list, an output buffer
+parameter that every caller allocates); Props/C16.v proves the generated and the reviewed tables EQUAL as sets, so
+replacing `x.coords.copy()` by an alias (`x.coords`, `x.coords.astype(np.intp, copy=False)`), or deleting a
+`data = data.copy()`, breaks a proof.
+
 Fail-closed: a missing anchored file, a syntax error or an empty table raises.
 
 generate(repo) -> ({"S_dense_sites.v": coq_text}, report)"""
@@ -118,6 +128,116 @@ class _Walk(ast.NodeVisitor):
         self.generic_visit(node)
 
 
+def _base_name(t):
+    while isinstance(t, (ast.Subscript, ast.Attribute)):
+        if isinstance(t, ast.Attribute):
+            return None
+        t = t.value
+    return t.id if isinstance(t, ast.Name) else None
+
+
+_ARRAY_ATTR = (".coords", ".data", ".indices", ".indptr")
+
+
+def _function_writes(fn):
+    """[(name, binding text)] for the names written in place inside fn (nested functions excluded: they are
+    visited on their own)"""
+    nested = set()
+    for n in ast.walk(fn):
+        if n is not fn and isinstance(n, (ast.FunctionDef, ast.AsyncFunctionDef, ast.Lambda)):
+            for m in ast.walk(n):
+                nested.add(id(m))
+    nodes = [n for n in ast.walk(fn) if id(n) not in nested or n is fn]
+    params = [a.arg for a in fn.args.posonlyargs + fn.args.args + fn.args.kwonlyargs]
+
+    def bindings(name):
+        out = []
+        if name in params:
+            out.append("<parameter>")
+        for n in nodes:
+            if isinstance(n, ast.Assign):
+                for t in n.targets:
+                    if isinstance(t, ast.Name) and t.id == name:
+                        out.append(ast.unparse(n.value))
+                    elif isinstance(t, (ast.Tuple, ast.List)):
+                        for i, e in enumerate(t.elts):
+                            if isinstance(e, ast.Name) and e.id == name:
+                                if isinstance(n.value, (ast.Tuple, ast.List)) and len(n.value.elts) == len(t.elts):
+                                    out.append(ast.unparse(n.value.elts[i]))
+                                else:
+                                    out.append(f"<item {i} of> " + ast.unparse(n.value))
+            elif isinstance(n, ast.For):
+                for e in ast.walk(n.target):
+                    if isinstance(e, ast.Name) and e.id == name:
+                        out.append("<loop over> " + ast.unparse(n.iter))
+            elif isinstance(n, (ast.AnnAssign,)) and isinstance(n.target, ast.Name) and n.target.id == name and n.value:
+                out.append(ast.unparse(n.value))
+        return out or ["<unbound>"]
+
+    written = []
+
+    def add(name):
+        if name and name not in written:
+            written.append(name)
+    for n in nodes:
+        targets = []
+        if isinstance(n, ast.Assign):
+            targets = list(n.targets)
+        elif isinstance(n, ast.AugAssign):
+            targets = [n.target]
+        flat = []
+        for t in targets:
+            flat.extend(t.elts if isinstance(t, (ast.Tuple, ast.List)) else [t])
+        for t in flat:
+            if isinstance(t, ast.Subscript):
+                add(_base_name(t))
+            elif isinstance(n, ast.AugAssign) and isinstance(t, ast.Name):
+                if any(any(a in b for a in _ARRAY_ATTR) for b in bindings(t.id)):
+                    add(t.id)
+        if isinstance(n, ast.Call):
+            for k in n.keywords:
+                if k.arg == "out" and not (isinstance(k.value, ast.Constant) and k.value.value is None):
+                    add(_base_name(k.value) if not isinstance(k.value, ast.Name) else k.value.id)
+    rows = []
+    for name in written:
+        for b in bindings(name):
+            rows.append((name, b))
+    # array attributes handed to an internal kernel: the argument text says whether the kernel gets the operand's
+    # own array or a copy (`_compute_minmax_args(x.coords.copy(), ...)`)
+    for n in nodes:
+        if isinstance(n, ast.Call) and isinstance(n.func, ast.Name) and n.func.id.startswith("_"):
+            for k, a in enumerate(n.args):
+                t = ast.unparse(a)
+                if any(x in t for x in _ARRAY_ATTR):
+                    rows.append((f"<argument {k} of {n.func.id}>", t))
+    return rows
+
+
+def extract_writes(repo):
+    rows = []
+    for rel in FILES:
+        tree = ast.parse(open(os.path.join(repo, rel)).read())
+        short = rel[len("sparse/numba_backend/"):]
+
+        def visit(node, stack):
+            for ch in ast.iter_child_nodes(node):
+                if isinstance(ch, (ast.FunctionDef, ast.AsyncFunctionDef)):
+                    for name, b in _function_writes(ch):
+                        rows.append((short, ".".join(stack + [ch.name]), name, b))
+                    visit(ch, stack + [ch.name])
+                elif isinstance(ch, ast.ClassDef):
+                    visit(ch, stack + [ch.name])
+                else:
+                    visit(ch, stack)
+        visit(tree, [])
+    if len(rows) < 40:
+        raise SiteError(f"only {len(rows)} in-place writes found: the extractor no longer understands the source")
+    for f, fn in (("_coo/common.py", "flip"), ("_coo/common.py", "roll"), ("_coo/common.py", "_sort_coo")):
+        if not any(r[0] == f and r[1] == fn for r in rows):
+            raise SiteError(f"no in-place write found in {f}:{fn}: the function was renamed or rewritten")
+    return rows
+
+
 def _q(s):
     return '"' + s.replace('"', '""').replace("\n", " ") + '"'
 
@@ -156,7 +276,15 @@ def generate(repo):
     out.append(";\n".join(rows))
     out.append("].")
     out.append("")
-    report = {"dense_sites": {"status": "ok", "sites": len(sites), "files": hashes}}
+    writes = extract_writes(repo)
+    out.append("(* every local name written in place, with every expression it is bound to in that function *)")
+    out.append("Record wsite := mkW { w_file : string; w_func : string; w_name : string; w_bind : string }.")
+    out.append("")
+    out.append("Definition inplace_sites : list wsite := [")
+    out.append(";\n".join("  mkW %s %s %s %s" % (_q(f), _q(fn), _q(n), _q(b)) for (f, fn, n, b) in writes))
+    out.append("].")
+    out.append("")
+    report = {"dense_sites": {"status": "ok", "sites": len(sites), "inplace_writes": len(writes), "files": hashes}}
     return {"S_dense_sites.v": "\n".join(out) + "\n"}, report
 
 
